@@ -13,6 +13,7 @@ import (
 	"os/exec"
 	"path/filepath"
 	"strings"
+	"time"
 
 	"github.com/ethereum/go-ethereum/rlp"
 	"github.com/vechain/thor/v2/block"
@@ -48,7 +49,15 @@ type ResyncBin struct {
 
 func BuildResyncBin(dir string) *ResyncBin {
 	os.MkdirAll(dir, 0o755)
-	rb := &ResyncBin{Path: filepath.Join(dir, "thor-crashlog.test"), Dir: dir}
+	// one binary per process: concurrent runs of the same check (different seeds / tiers) must not delete each other's binary
+	if old, _ := filepath.Glob(filepath.Join(dir, "thor-crashlog-*.test")); old != nil {
+		for _, f := range old {
+			if st, err := os.Stat(f); err == nil && time.Since(st.ModTime()) > 30*time.Minute {
+				os.Remove(f)
+			}
+		}
+	}
+	rb := &ResyncBin{Path: filepath.Join(dir, fmt.Sprintf("thor-crashlog-%d.test", os.Getpid())), Dir: dir}
 	os.Remove(rb.Path)
 	repo := os.Getenv("VERIF_REPO")
 	if repo == "" {
